@@ -4787,6 +4787,13 @@ class Entity(object, metaclass=EntityMeta):
                 indexes_update[attrs] = vals
             try:
                 entity._get_from_identity_map_(pkval, 'created', undo_funcs=undo_funcs, obj_to_init=obj)
+                # the unique values are claimed before the relationships are linked: linking can load rows,
+                # and a loaded row that holds one of these values has to meet the claim (and be refused)
+                for key, vals in indexes_update.items(): cache_indexes[key][vals] = obj
+                def undo_indexes():
+                    for key, vals in indexes_update.items():
+                        if cache_indexes[key].get(vals) is obj: del cache_indexes[key][vals]
+                undo_funcs.append(undo_indexes)
                 for attr, val in avdict.items():
                     if attr.pk_offset is not None: continue
                     elif not attr.is_collection:
@@ -4797,7 +4804,6 @@ class Entity(object, metaclass=EntityMeta):
                 for undo_func in reversed(undo_funcs): undo_func()
                 raise
         if pkval is not None: cache_indexes[entity._pk_attrs_][pkval] = obj
-        for key, vals in indexes_update.items(): cache_indexes[key][vals] = obj
         objects_to_save = cache.objects_to_save
         obj._save_pos_ = len(objects_to_save)
         objects_to_save.append(obj)
